@@ -1152,6 +1152,23 @@ pub fn gen_alloc_program(rng: &mut Rng, size: usize, with_submodules: bool) -> M
         pre.push(Card::set_global_var("outk2", bin(CardBody::GetProperty, read(&"kh".to_string()), read(&"kt".to_string()))));
         pre.push(Card::set_global_var("outk0", read(&"kh".to_string())));
     }
+    if rng.chance(1, 3) {
+        // a key function that REMOVES rows from the table the library function iterates (through a
+        // global alias) and allocates: the rows the native copied are then only held by the native
+        let n = rng.range(3, 6);
+        pre.push(Card::set_var("t6", c(CardBody::Array((0..n).map(|i| c(CardBody::StringLiteral("row".to_string() + &"x".repeat((n - i) as usize)))).collect()))));
+        pre.push(Card::set_global_var("gpoprows", read(&"t6".to_string())));
+        let keyfn = c(CardBody::Closure(Box::new(Function {
+            arguments: vec!["key".into(), "val".into()],
+            cards: vec![
+                c(CardBody::PopTable(cao_lang::compiler::UnaryExpression::new(read(&"gpoprows".to_string())))),
+                Card::set_var("junk", c(CardBody::StringLiteral("garbage made by the key function".into()))),
+                Card::return_card(read(&"val".to_string())),
+            ],
+        })));
+        let name = *rng.pick(&["std.min_by_key", "std.max_by_key", "std.sorted_by_key"]);
+        pre.push(Card::set_global_var("outp", Card::call_function(name, vec![keyfn, read(&"t6".to_string())])));
+    }
     pre.push(Card::set_global_var("outb", read(&"t0".to_string())));
     pre.push(Card::set_global_var("outc", read(&"t00".to_string())));
     let f = &mut m.functions[pos].1;
